@@ -489,11 +489,12 @@ def provenance(func, expr, depth=0):
 
 
 def parser_line_loop(prog):
-    """the parser function with a `for` over <param>.split('\\n')"""
+    """the parser function with a `for` over <param>.split('\\n'), private helpers inlined"""
     out = []
-    for f in prog.all_functions():
-        if '/deprecated/' in f.module.rel:
+    for f_raw in prog.all_functions():
+        if '/deprecated/' in f_raw.module.rel:
             continue
+        f = flatten(prog, f_raw)
         for n in ast.walk(f.node):
             if isinstance(n, ast.For):
                 it = n.iter
@@ -509,6 +510,10 @@ def parser_line_loop(prog):
                     if call_name(src) == 'splitlines' or (src.args and isinstance(src.args[0], ast.Constant)
                                                           and src.args[0].value == '\n'):
                         out.append((f, n))
+    if len(out) > 1:
+        # a caller that has the parsing function inlined is not a second parser
+        keys = {f.key for f, _ in out}
+        out = [(f, n) for f, n in out if not (set(getattr(f, 'inlined', ())) & (keys - {f.key}))]
     if len(out) != 1:
         raise AnalysisError('expected one parser line loop, found %s' % [f.qualname for f, _ in out])
     return out[0]
